@@ -76,6 +76,8 @@ def _exprs(depth):
 def cases(tier, seed):
     D = 1 if tier == 'quick' else 2
     T, O = _exprs(D)
+    for c in _glist_cases():
+        yield c
     for dpt in range(0, D + 1):
         for e in T[dpt]:
             for term in T_TERM:
@@ -87,6 +89,14 @@ def cases(tier, seed):
                 for tr in TRACK:
                     if _uses(e, tr[0], term):
                         yield {'e': e, 'term': term, 'kind': 'O', 'track': list(tr)}
+
+
+def _glist_cases():
+    # grad_list over tracked tensors of DIFFERENT orders, both list orders, both groupings
+    for prog in ('kron_bx', 'kron_xb', 'dot_axis', 'cat_sum'):
+        for order in ('bx', 'xb', 'xbA'):
+            for aio in (True, False):
+                yield {'kind': 'glist', 'prog': prog, 'order': order, 'aio': aio}
 
 
 def _leaves(e):
@@ -376,7 +386,94 @@ def term_dense(term, kind, E, env):
     raise KeyError(term)
 
 
+def _run_glist(c):
+    key = 'glist|%s|%s|%s' % (c['prog'], c['order'], c['aio'])
+    cx = [t * 0.7 for t in values.cores_for(space.tensor_struct(N, RX, 'f64', 'gauss'), 'x', 0)]
+    cb = [t * 0.7 for t in values.cores_for(space.tensor_struct([N[0], N[2]], [1, 2, 1], 'f64', 'gauss'), 'b2', 0)]
+    cA = [t * 0.7 for t in values.cores_for(space.operator_struct(N, N, RA, 'f64', 'gauss'), 'A', 0)]
+
+    def value(mode, X, B, A_):
+        if mode == 'tt':
+            x, b, A = torchtt.TT(X), torchtt.TT(B), torchtt.TT(A_)
+            if c['prog'] == 'kron_bx':
+                r = (b ** (A @ x)).full()
+            elif c['prog'] == 'kron_xb':
+                r = torchtt.kron(A @ x, b).full()
+            elif c['prog'] == 'dot_axis':
+                r = torchtt.dot(A @ x, b, [0, 2]).full()
+            else:
+                r = (torchtt.cat((A @ x, A @ x), 1).sum([1]) * b).full()
+            return (r * _G(r.shape, 'gl')).sum(), [x, b, A]
+        x, b, A = dense_of(X), dense_of(B), dense_of(A_)
+        d = len(N)
+        Ax = torch.tensordot(A, x, dims=(list(range(d, 2 * d)), list(range(d))))
+        if c['prog'] == 'kron_bx':
+            r = torch.tensordot(b, Ax, dims=0)
+        elif c['prog'] == 'kron_xb':
+            r = torch.tensordot(Ax, b, dims=0)
+        elif c['prog'] == 'dot_axis':
+            r = torch.tensordot(Ax, b, dims=([0, 2], [0, 1]))
+        else:
+            r = torch.cat((Ax, Ax), 1).sum(dim=1) * b
+        return (r * _G(r.shape, 'gl')).sum(), None
+    site = 'grad_list.%s.%s' % (c['prog'], 'all_in_one' if c['aio'] else 'grouped')
+    # dense reference
+    Xd, Bd, Ad = [[t.clone().requires_grad_(True) for t in cs] for cs in (cx, cb, cA)]
+    vd, _ = value('dense', Xd, Bd, Ad)
+    vd.backward()
+    ref_g = {'x': [t.grad for t in Xd], 'b': [t.grad for t in Bd], 'A': [t.grad for t in Ad]}
+    # library
+    Xt, Bt, At = [[t.clone() for t in cs] for cs in (cx, cb, cA)]
+    try:
+        vt, objs = value('tt', Xt, Bt, At)
+    except Exception as ex:
+        return Outcome(key, True, 'raises', violations=[V(site + '.raises_' + exc_name(ex), repr(ex)[:200])])
+    x, b, A = objs
+    tens = {'bx': [('b', b), ('x', x)], 'xb': [('x', x), ('b', b)], 'xbA': [('x', x), ('b', b), ('A', A)]}[c['order']]
+    # watch has to happen before the graph is built: rebuild with watched objects
+    Xt, Bt, At = [[t.clone() for t in cs] for cs in (cx, cb, cA)]
+    x, b, A = torchtt.TT(Xt), torchtt.TT(Bt), torchtt.TT(At)
+    tens = {'bx': [('b', b), ('x', x)], 'xb': [('x', x), ('b', b)], 'xbA': [('x', x), ('b', b), ('A', A)]}[c['order']]
+    torchtt.grad.watch_list([t for _, t in tens])
+    try:
+        if c['prog'] == 'kron_bx':
+            r = (b ** (A @ x)).full()
+        elif c['prog'] == 'kron_xb':
+            r = torchtt.kron(A @ x, b).full()
+        elif c['prog'] == 'dot_axis':
+            r = torchtt.dot(A @ x, b, [0, 2]).full()
+        else:
+            r = (torchtt.cat((A @ x, A @ x), 1).sum([1]) * b).full()
+        val = (r * _G(r.shape, 'gl')).sum()
+        gl = torchtt.grad.grad_list(val, [t for _, t in tens], all_in_one=c['aio'])
+    except Exception as ex:
+        return Outcome(key, True, 'raises', violations=[V(site + '.raises_' + exc_name(ex), repr(ex)[:200])])
+    viol = []
+    want_groups = [ref_g[n] for n, _ in tens]
+    if c['aio']:
+        want = [g for grp in want_groups for g in grp]
+        got = gl
+        if not isinstance(got, list) or len(got) != len(want):
+            viol.append(V(site + '.length', 'returned %s entries, expected %d' % (len(got) if isinstance(got, list) else '?', len(want))))
+        pairs = list(zip(got, want)) if not viol else []
+    else:
+        if not isinstance(gl, list) or len(gl) != len(want_groups) or any(not isinstance(g, list) or len(g) != len(w) for g, w in zip(gl, want_groups)):
+            viol.append(V(site + '.grouping', 'group sizes %s, expected %s' % ([len(g) if isinstance(g, list) else '?' for g in gl] if isinstance(gl, list) else '?', [len(w) for w in want_groups])))
+            pairs = []
+        else:
+            pairs = [(a, w) for g, grp in zip(gl, want_groups) for a, w in zip(g, grp)]
+    gs = max([float(w.abs().max()) for grp in want_groups for w in grp if w is not None] + [1e-12])
+    for a, w in pairs:
+        w = torch.zeros_like(a) if (w is None and a is not None) else w
+        if a is None or w is None or tuple(a.shape) != tuple(w.shape) or float((a - w).abs().max()) > 1e-9 * gs:
+            viol.append(V(site + '.mismatch', 'a returned gradient does not match the dense one (shape %s vs %s)' % (getattr(a, 'shape', None), getattr(w, 'shape', None))))
+            break
+    return Outcome(key, True, 'glist', transitions=2, compared=1, violations=viol)
+
+
 def run_case(c):
+    if c.get('kind') == 'glist':
+        return _run_glist(c)
     e = _tupleize(c['e'])
     term, kind = c['term'], c['kind']
     who, core = c['track']
